@@ -45,7 +45,7 @@ vars == <<st, op, cfg>>
 Kind == cfg.kind            \* "req" or "resp"
 Norm == cfg.norm            \* TRUE: header names are normalised
 Spellings == cfg.sp         \* spellings of names used by Set/Add/Del
-Typed == cfg.typed          \* enabled groups of typed setters: subset of {"framing", "cookie", "slot"}
+Typed == cfg.typed          \* enabled groups of typed setters: subset of {"cl", "framing", "cookie", "slot"}
 Ops == cfg.ops              \* enabled generic operations: subset of {"Set", "Add", "Del"}
 OrdVals == cfg.ov           \* values used for ordinary names
 
@@ -254,10 +254,11 @@ SetContentEncoding(v) == Kind = "resp" /\ st' = [st EXCEPT !.ce = v] /\ op' = Op
 \* request cookies: name/value; response cookies: name / whole Set-Cookie value
 CookieArgs == IF Kind = "req" THEN {<<"k", "9">>, <<"j", "8">>} ELSE {<<"k", "k=9">>, <<"j", "j=8; path=/">>}
 
-\* Typed selects which groups of typed setters are enabled ("framing", "cookie", "slot")
-TypedOps == \/ /\ "framing" \in Typed
-               /\ \/ \E n \in {5, -1} : SetContentLength(n)
-                  \/ SetConnectionClose \/ ResetConnectionClose
+\* Typed selects which groups of typed setters are enabled ("cl", "framing", "cookie", "slot")
+TypedOps == \/ /\ ("cl" \in Typed \/ "framing" \in Typed)
+               /\ \E n \in {5, -1} : SetContentLength(n)
+            \/ /\ "framing" \in Typed
+               /\ (SetConnectionClose \/ ResetConnectionClose)
             \/ /\ "cookie" \in Typed
                /\ \/ \E c \in CookieArgs : SetCookie(c[1], c[2])
                   \/ \E k \in {"k", "j"} : DelCookie(k)
